@@ -145,7 +145,7 @@ class Gen01(mut.Gen):
 
     def sp_remove_keep(self):
         ti = self.pick_tree()
-        n = self._pick(ti, lambda x: bool(x._children))
+        n = self._pick(ti, lambda x: len(x._children or []) >= 3) or self._pick(ti, lambda x: bool(x._children))
         if n is None:
             return False
         self.do(["remove", ti, self.w.rel(n), True, False])
